@@ -21,6 +21,9 @@ func (sp *Spec) Files() map[string]string {
 		out["zz_generated.go"] = v
 	}
 	sp.renderExtFiles(out)
+	if c := sp.Compose; c != nil {
+		out[c.File] = fmt.Sprintf("package %s\n\nimport %q\n\n// An injector generated from another file of this package is used as a provider here.\nvar _ = kessoku.Inject[%s](\n\t%q,\n\tkessoku.Provide(%s),\n\tkessoku.Provide(%s),\n)\n", sp.Pkg, KessokuImport, c.Requested, c.Outer, c.Inner, c.Wrapper)
+	}
 	for f := 0; f < sp.NFiles; f++ {
 		out[fmt.Sprintf("k%d.go", f)] = sp.renderDecl(f)
 	}
